@@ -734,6 +734,32 @@ def large_doc(rng, nlines, style, target_bytes=None):
     return [("block", t)]
 
 
+SYNTAX_WORDS = [("star", "*"), ("star-star", "**"), ("star-space-star", "* *"), ("star-slash", "* /"),
+                ("slash-star", "/ *"), ("slash-slash", "//"), ("slash-slash-slash", "///"),
+                ("slash-star-star", "/**"), ("hash", "#"), ("hyphen", "-"), ("backtick", "`"),
+                ("backslash", "\\"), ("three-stars", "***")]
+
+
+def syntax_doc(w, style):
+    """every line begins and/or ends with the word w: as the summary, as the first, a middle and
+    the last description line; after a blank, after a tab, directly after a word; alone on a line"""
+    lines = ["%s Summary %s" % (w, w), "", "%s first %s" % (w, w), "mid %s dle" % w, "glued%s" % w,
+             "tab\t%s" % w, w, "%s inner %s text" % (w, w), "last %s" % w]
+    if style == "line":
+        return [("line", " " + l) for l in lines]
+    if style == "attr-per-line":
+        return [("attr", " " + l) for l in lines]
+    if style == "attr":
+        return [("attr", "\n".join(" " + l for l in lines))]
+    if style == "block-decorated":
+        body = [""] + [INDENT + " * " + l if l else INDENT + " *" for l in lines] + [INDENT + " "]
+    else:
+        body = [""] + [INDENT + " " + l for l in lines] + [INDENT + " "]
+    t = "\n".join(body).replace("*/", "* /").replace("/*", "/ *")
+    assert ok_block(t), t
+    return [("block", t)]
+
+
 def large_decls(rng):
     batch = LARGE_BATCH
     out = []
@@ -744,7 +770,7 @@ def large_decls(rng):
                     deprecated=False, ret="ok", path_suffix=("", [], None))
         base.update(kw)
         d = rand_decl(rng, batch, len(out), doc=doc if doc is not None else [], label="large", **base)
-        d["large"] = ["large:" + x for x in dims]
+        d["large"] = [x if x.startswith("syntax:") else "large:" + x for x in dims]
         out.append(d)
         return d
 
@@ -804,6 +830,11 @@ def large_decls(rng):
     add(["extractors:3", "tags:9", "path-variables:9"], method="POST", body="typed", query=True,
         tags=["t%d" % i for i in range(9)],
         path_suffix=("".join("/{p%d}" % i for i in range(9)), ["p%d" % i for i in range(9)], None))
+    # words of the comment syntax itself as first / last word of summary and description lines
+    for si, style in enumerate(("line", "block-decorated", "block-plain", "attr", "attr-per-line")):
+        for wi, (wname, w) in enumerate(SYNTAX_WORDS):
+            add(["syntax:word:" + wname, "syntax:style:" + style], doc=syntax_doc(w, style),
+                kind="channel" if (si * len(SYNTAX_WORDS) + wi) % 7 == 3 else "endpoint")
     # number of endpoints in one API (trait / free functions): fill up to 260
     n_special = len(out)
     while len(out) < 260:
